@@ -66,6 +66,11 @@ template<class T> static void nary(T a, T b, T c, T d, const char* tn)
 	{ T w = fmin_ref<T>({fmax_ref<T>({a, b}), c}); if (!samev(glm::fclamp(a, b, c), w)) tfail("fclamp" + sfx, "fmin(fmax(x, lo), hi)", in, fs(w), fs(glm::fclamp(a, b, c))); }
 	if (a != a || b != b || c != c || d != d) return;
 	if (!samev(glm::min(a, b), b < a ? b : a) || !samev(glm::max(a, b), a < b ? b : a)) tfail("min/max" + sfx, "value", in, "", "");
+#if !(GLM_ARCH & GLM_ARCH_SIMD_BIT)
+	// the GLSL definitions literally: min(x, y) = y < x ? y : x and max(x, y) = x < y ? y : x -- equal operands (+0 and -0) return x, bit for bit
+	// (minps / maxps return the second operand there: not checked on the SIMD builds)
+	{ T mn = glm::min(a, b), wmn = b < a ? b : a, mx = glm::max(a, b), wmx = a < b ? b : a; if (std::memcmp(&mn, &wmn, sizeof(T)) || std::memcmp(&mx, &wmx, sizeof(T))) tfail("min/max" + sfx, "equal operands of different sign (+0, -0): the first operand", in, fs(wmn) + " / " + fs(wmx), fs(mn) + " / " + fs(mx)); }
+#endif
 	if (!samev(glm::min(a, b, c), std::min(a, std::min(b, c))) || !samev(glm::max(a, b, c, d), std::max(std::max(a, b), std::max(c, d)))) tfail("min/max" + sfx, "3/4 operands", in, "", "");
 	if (b <= c && !samev(glm::clamp(a, b, c), std::min(std::max(a, b), c))) tfail("clamp" + sfx, "value", in, fs(std::min(std::max(a, b), c)), fs(glm::clamp(a, b, c)));
 	if (!samev(glm::step(a, b), b < a ? (T)0 : (T)1)) tfail("step" + sfx, "value", in, "", fs(glm::step(a, b)));
